@@ -169,21 +169,3 @@ Lemma linear_ok2 : linear_stmt2.
 Proof. unfold linear_stmt2, linear2. intros. mat. Qed.
 Lemma linear_ok3 : linear_stmt3.
 Proof. unfold linear_stmt3, linear3. intros. mat. Qed.
-Lemma cauchy_to_pk2_ok1 : cauchy_to_pk2_stmt1.
-Proof. unfold cauchy_to_pk2_stmt1, cauchy_to_pk21. intros. mat. Qed.
-Lemma cauchy_to_pk2_ok2 : cauchy_to_pk2_stmt2.
-Proof. unfold cauchy_to_pk2_stmt2, cauchy_to_pk22. intros. mat. Qed.
-Lemma cauchy_to_pk2_ok3 : cauchy_to_pk2_stmt3.
-Proof. unfold cauchy_to_pk2_stmt3, cauchy_to_pk23. intros. mat. Qed.
-Lemma pk2_to_cauchy_ok1 : pk2_to_cauchy_stmt1.
-Proof. unfold pk2_to_cauchy_stmt1, pk2_to_cauchy1. intros. mat. Qed.
-Lemma pk2_to_cauchy_ok2 : pk2_to_cauchy_stmt2.
-Proof. unfold pk2_to_cauchy_stmt2, pk2_to_cauchy2. intros. mat. Qed.
-Lemma pk2_to_cauchy_ok3 : pk2_to_cauchy_stmt3.
-Proof. unfold pk2_to_cauchy_stmt3, pk2_to_cauchy3. intros. mat. Qed.
-Lemma pk2_cauchy_roundtrip_ok1 : pk2_cauchy_roundtrip_stmt1.
-Proof. unfold pk2_cauchy_roundtrip_stmt1, pk2_cauchy_roundtrip1. intros. mat. Qed.
-Lemma pk2_cauchy_roundtrip_ok2 : pk2_cauchy_roundtrip_stmt2.
-Proof. unfold pk2_cauchy_roundtrip_stmt2, pk2_cauchy_roundtrip2. intros. mat. Qed.
-Lemma pk2_cauchy_roundtrip_ok3 : pk2_cauchy_roundtrip_stmt3.
-Proof. unfold pk2_cauchy_roundtrip_stmt3, pk2_cauchy_roundtrip3. intros. mat. Qed.
